@@ -103,6 +103,8 @@ ThoroughFamilies == <<
     Probes7 \cup {S("unbind", 0, 0, <<>>, 0, 0, 0, "ok")}, Probes7>>
 >>
 
+SimSteps == {s \in AllSteps : NoHang(s)}
+
 CtorFamilies == << <<{PDelete, PSearch, PStream, S("compare", 0, 0, <<>>, 1, 1, 0, "sil")}, {PClosed, PDelete}>> >>
 
 Families == IF ctor # "ws" THEN CtorFamilies
@@ -117,7 +119,8 @@ MCInit == InitSeq /\ ctor \in {"ws", "fus", "new", "fu"}
 MCNext == /\ Len(script) < MaxLen
           /\ UNCHANGED ctor
           /\ IF Tier = "sim"
-             THEN \E st \in {s \in AllSteps : NoHang(s)} : Extend(st)
+             THEN Extend(RandomElement(SimSteps))     \* -simulate: ONE random successor per state (TLC evaluates the
+                                                      \* invariants, hence Emit, on every successor it generates)
              ELSE \E k \in DOMAIN Families :
                     /\ InFamily(Families[k], script) /\ Len(script) < Len(Families[k])
                     /\ \E st \in Families[k][Len(script) + 1] : Extend(st)
